@@ -142,8 +142,10 @@ def main(argv):
             r.sup = _NoSup()
             try:
                 mod.run_unit(body["unit"], r)
+                explore.RETAINER.verify("(end of unit)")
             except BaseException as e:
                 print("REPLAY: unit raised %r" % (e,))
+            explore.RETAINER.flush(r)
             viols = [v for k, lst in r.violations.items() if k == body["key"] for v in lst]
         else:
             viols = mod.replay(body["case"])
@@ -214,7 +216,7 @@ def main(argv):
         if not a.no_confirm and getattr(mod, "CONFIRM", True):
             env = dict(os.environ)
             env["VERIF_REPLAY_QUIET"] = "1"
-            if isinstance(v["case"], dict) and v["case"].get("unit_crash"):
+            if isinstance(v["case"], dict) and (v["case"].get("unit_crash") or v["case"].get("retained")):
                 confirmed = False       # only the whole unit can be replayed
             else:
                 try:
@@ -235,7 +237,7 @@ def main(argv):
                     confirmed = (r.returncode != 0)
                 except subprocess.TimeoutExpired:
                     confirmed = key.startswith("unit:hang")
-                if confirmed and not key.startswith("unit:"):
+                if confirmed and not key.startswith(("unit:", "result-overwritten:")):
                     history_dep.append(key)
         if confirmed:
             nv += 1
